@@ -75,6 +75,7 @@ func runC08(c *Ctx, r *Report) {
 	c08r17(c, r)
 	c08r18(c, r)
 	c08r19(c, r)
+	c08r20(c, r)
 	c08r9(c, r)
 	c08r10(c, r)
 	c04r9(c, r) // convergence: a merger cached under another configuration must not be served
